@@ -120,6 +120,34 @@ fn vrun(profile: &str, seed: u64, start: u64, count: u64, out: &str, verbose: bo
                 }
             }
         }
+        // C08, differential clause: if nothing fails finally, a fail-fast run equals a normal run.
+        // (Same seeds, same schedule; only cases without real-time delays are comparable event by event.)
+        if case.cfg.fail_fast()
+            && run.end == exec::End::Ended
+            && an.first_final_failure.is_none()
+            && !run.evs.iter().any(|r| matches!(r.ev, vh::evrec::Ev::ParseErr(_)))
+            && an.sc.values().all(|i| i.retry.is_none_or(|r| r.1.is_none()))
+            && case.sched_sleep_pct == 0
+        {
+            let mut plain = case.clone();
+            plain.cfg.cli_ff = false;
+            plain.cfg.b_ff = false;
+            let run2 = exec::run_case(&plain);
+            let a = vh::evrec::render(&run.evs);
+            let b = vh::evrec::render(&run2.evs);
+            tally.count("c08.differential_pairs", 1);
+            tally.nontrivial("C08", vh::rng::fnv(&format!("diff|{}|{:?}", a.len(), case.cfg.limit())) ^ run.sched_hash);
+            if a != b {
+                let at = a.iter().zip(&b).position(|(x, y)| x != y).unwrap_or(a.len().min(b.len()));
+                tally.violation(
+                    "C08",
+                    "failfast:differs-when-nothing-fails",
+                    format!("no attempt failed finally, yet the fail-fast run differs from the normal run at event {at}: {:?} vs {:?}", a.get(at), b.get(at)),
+                    idx,
+                    json!({"case": case.describe(), "fail_fast_stream": a, "normal_stream": b}),
+                );
+            }
+        }
         tally.sample("run", 3, || {
             json!({"case_index": idx, "case": case.describe(), "stream": vh::evrec::render(&run.evs), "schedule": run.qpoints.iter().map(|q| q.decision.clone()).collect::<Vec<_>>()})
         });
